@@ -31,6 +31,7 @@ func runC20(c *Ctx) {
 	c20R3(c, "C20.R3")
 	c20R4(c, "C20.R4")
 	c20R5(c, "C20.R5")
+	c20R6(c, "C20.R6")
 }
 
 type c20Target struct {
